@@ -144,6 +144,19 @@ def main(tier):
             for fam in MACRO:
                 src = line.replace("{f}", MACRO[fam]).replace("{F}", MACRO[fam].upper()) + "\n" + FAM_BODY[fam]
                 cases.append((src.encode("utf-8"), r.choice(["-", "-", "S", "N,B"])))
+        # the st command judges its BARE values (not parenthesised) with statements, the sides-left-out spelling and bitwise operators off,
+        # whatever the host's switches are and whatever a look-ahead saw before the switches were set
+        ST_BARE = ["3d", "2d", "7D", "2d+1", "3d k2", "1|2", "6&3", "5 | 1", "`{% if 1 { 7 } else { 8 } %}`", "`{% func g() { return 3 }; g() %}`", "d", "2dk1", "4D优势"]
+        st_bare = set()
+        for v in ST_BARE:
+            for nm in ("力量", "hp", "射击:弓箭"):
+                for binder in ("=", ":", " = "):
+                    for pre in ("", "敏捷60 ", "a=1,"):
+                        src = "^st" + pre + nm + binder + v
+                        st_bare.add(src.encode("utf-8"))
+                        cases.append((src.encode("utf-8"), r.choice(["-", "-", "wcfd", "N", "B", "S"])))
+        nd_nums = {ops["typePushDefaultExpr"]}
+        bw_nums = {ops["typeBitwiseAnd"], ops["typeBitwiseOr"]}
         lines = [f"pegtrace {cfg} {hx(src)}" for src, cfg in cases]
         g_out = go_child().run(lines)
         m_out = lean_child().run(lines)
@@ -167,6 +180,13 @@ def main(tier):
                 if emitted & nums and fam not in flags and not macro_enables(text, MACRO[fam]):
                     run.violation("disabled-family-compiled:" + MACRO[fam], {"source": text, "cfg": cfg, "implementation": a[:300],
                                                                               "opcodes": sorted(emitted & nums)})
+            if "N" in cfg.split(",") and emitted & nd_nums:
+                run.violation("sides-left-out-compiled-under-DisableNDice", {"source": text, "cfg": cfg, "implementation": a[:300]})
+            if src in st_bare:
+                run.count("st-bare.cases")
+                bad_ops = emitted & (nd_nums | bw_nums | stmt_nums)
+                if bad_ops:
+                    run.violation("st-bare-value-compiled-restricted-syntax", {"source": text, "cfg": cfg, "implementation": a[:300], "opcodes": sorted(bad_ops)})
             if "S" in cfg.split(",") or ",S" in cfg:
                 if emitted & stmt_nums:
                     run.violation("statements-compiled-under-DisableStmts", {"source": text, "cfg": cfg, "implementation": a[:300],
